@@ -61,7 +61,7 @@ def _worker(args):
         for f in res.requires_formula:
             s.add(f)
         out["requires_sat"] = str(s.check())
-    timeout = 60000 if tier == "quick" else 240000
+    timeout = 25000 if tier == "quick" else 240000
     all_obligations = list(res.obligations)
     if res.error is None:
         bc, bfi = verify.find_base_contract(I, c, fi)
@@ -146,7 +146,7 @@ def _worker_retry(args):
         if k not in want:
             continue
         try:
-            r = solve.decide(ob, res.str_axioms, 90000, True)
+            r = solve.decide(ob, res.str_axioms, 45000 if tier == "quick" else 180000, True)
             out[k] = {"status": r[1], "backend": r[2], "seconds": r[3], "model": r[4], "tried": r[5]}
         except Exception as e:
             out[k] = {"status": "error", "error": str(e)}
@@ -280,12 +280,12 @@ def main(argv=None):
         for r in results:
             todo = [(o["name"], o.get("path")) for o in r["obligations"] if o["status"] not in ("unsat", "sat", "error")]
             if todo and not r["error"]:
-                # one job per obligation (they run side by side), at most 12 per run: the second pass is bounded
+                # one job per obligation (they run side by side), at most 8 per run: the second pass is bounded
                 for t in todo:
-                    if len(retry) < 12:
+                    if len(retry) < 8:
                         retry.append((r["key"], tier, [t]))
         if retry:
-            with ctx.Pool(processes=max(1, min(6, len(retry)))) as pool:
+            with ctx.Pool(processes=max(1, min(8, len(retry)))) as pool:
                 for key, recs in pool.imap_unordered(_worker_retry, retry, chunksize=1):
                     for r in results:
                         if r["key"] != key:
